@@ -193,3 +193,53 @@ func (e *RefEncoder) EncodeBlock(fields []HF, reps []Rep) ([]byte, error) {
 	}
 	return b, nil
 }
+
+// tableWatch follows the size of an encoder's dynamic table as its own output shows it (RFC 7541 4.2, 6.3):
+// 4096 until a dynamic table size update says otherwise. Every frame sent after an acknowledgement has to respect the
+// acknowledged SETTINGS_HEADER_TABLE_SIZE, so when a header block arrives, the limit acknowledged last before it is the
+// one that counts: if it lies below the size the encoder has been working with, the peer's decoder is shrunk to it
+// before the block is decoded, whether or not the block says so in a size update. An encoder that goes on with the
+// larger table then refers to entries the decoder no longer has and the block fails to decode. (Limits that came and
+// went between two header blocks are not held against the encoder: RFC 7541 4.2 wants the smallest of them signalled,
+// but the statement of C18 is about the table behind the frames that are sent.)
+type tableWatch struct {
+	cur     int64
+	pending int64 // limit acknowledged since the last header block, -1 if none
+}
+
+func newTableWatch() tableWatch { return tableWatch{cur: 4096, pending: -1} }
+
+// acked is called when an acknowledgement makes limit binding for the encoder.
+func (t *tableWatch) acked(limit int64) { t.pending = limit }
+
+// beforeBlock reports the size the decoder has to be shrunk to before the next header block is decoded.
+func (t *tableWatch) beforeBlock() (int64, bool) {
+	l := t.pending
+	t.pending = -1
+	if l >= 0 && l < t.cur {
+		t.cur = l
+		return l, true
+	}
+	return 0, false
+}
+
+// block follows the size updates at the start of a complete header block.
+func (t *tableWatch) block(b []byte) {
+	for len(b) > 0 && b[0]&0xe0 == 0x20 {
+		v := int64(b[0] & 0x1f)
+		b = b[1:]
+		if v == 0x1f {
+			shift := uint(0)
+			for len(b) > 0 {
+				c := b[0]
+				b = b[1:]
+				v += int64(c&0x7f) << shift
+				shift += 7
+				if c&0x80 == 0 || shift > 56 {
+					break
+				}
+			}
+		}
+		t.cur = v
+	}
+}
